@@ -36,6 +36,16 @@ impl Timestamp {
         system_time_from_timestamp(self.0)
     }
 
+    #[cfg(cfb_verif)]
+    pub fn verif_from_value(value: u64) -> Timestamp {
+        Timestamp(value)
+    }
+
+    #[cfg(cfb_verif)]
+    pub fn verif_value(self) -> u64 {
+        self.0
+    }
+
     pub fn read_from<R: Read>(reader: &mut R) -> io::Result<Timestamp> {
         Ok(Timestamp(reader.read_le_u64()?))
     }
